@@ -366,6 +366,8 @@ Definition str_conv_d (s : stri) : vres * stri :=
       | (r, v) =>
           if r <? 0 then (VErr r, s) else
           let rs := zpos p' r in
+          (* only white space consumed: no element *)
+          if all_space (firstn (rs - p) (skipn p (t_bytes (s_text s)))) then (VErr MissingData, s) else
           let keep := match s_end s with Some e => Nat.ltb rs e | None => false end in
           (VNum T_s v, str_set s (s_val s) (s_end s) (if keep then Some rs else None))
       end
@@ -781,6 +783,7 @@ Definition str_conv_u (s : stri) : Z * option N * stri :=
       | (r, v) =>
           if r <? 0 then (r, None, s) else
           let rs := zpos p' r in
+          if all_space (firstn (rs - p) (skipn p (t_bytes (s_text s)))) then (MissingData, None, s) else
           let keep := match s_end s with Some e => Nat.ltb rs e | None => false end in
           (T_s, v, str_set s (s_val s) (s_end s) (if keep then Some rs else None))
       end
